@@ -81,7 +81,24 @@ def _history(draw):
 def parts(tier):
     q = tier == "quick"
     return [Part("fixed", strategy=_case(), examples=900 if q else 20000, timeout=300),
-            Part("history", strategy=_history(), examples=600 if q else 12000, timeout=300)]
+            Part("history", strategy=_history(), examples=600 if q else 12000, timeout=300),
+            Part("implicit_steps", strategy=_implicit_steps(), examples=400 if q else 8000, timeout=300)]
+
+
+@st.composite
+def _implicit_steps(draw):
+    """implicit methods without an error estimator on mild linear problems, with the library's DEFAULT tolerances or given ones,
+    states of size 1 .. 1e6: a step may only be shorter than requested after a stage solve that failed"""
+    method = draw(traj.method_name(families=["implicit_fixed"]))
+    t0, tf = draw(traj.span(max_len=3.0))
+    L = abs(tf - t0)
+    n = draw(st.sampled_from([1, 2]))
+    A = [[draw(st.integers(-6, 6)) / (4.0 * max(L, 1.0)) for _ in range(n)] for _ in range(n)]
+    return dict(part="implicit_steps", method=method, dtype=draw(st.sampled_from(["float64", "float64", "float32"])), prob=dict(kind="lin", A=A, horizon=3 * L),
+                y0=[draw(st.sampled_from([1.0, -0.5, 2.0])) for _ in range(n)], yscale=draw(st.sampled_from([1.0, 1.0, 30.0, 1e3, 1e6, 1e-4])),
+                t0=t0, tf=tf, dt=L * draw(st.sampled_from([1 / 4.0, 1 / 8.0, 1 / 16.0, 0.1, 0.3, 0.07])),
+                rtol=draw(st.sampled_from([None, None, 1e-6, 1e-9])), dense=False)
+
 
 
 def _check_history(case):
@@ -221,9 +238,84 @@ def _run(case, fam):
     return a, f, y0, err, limit
 
 
+class _NewtonRecorder(object):
+    """wraps integrator.step on the instance: (start time, offered step, whether the stage solve converged)"""
+
+    def __init__(self, integ):
+        self.attempts = []
+        inner = integ.step
+
+        def rec(rhs, initial_time, initial_state, constants, timestep):
+            out = inner(rhs, initial_time, initial_state, constants, timestep)
+            self.attempts.append((float(initial_time), float(timestep), bool(integ.solver_dict.get("newton_iteration_success", True))))
+            return out
+        integ.step = rec
+
+
+def _check_implicit_steps(case):
+    import desolver as de
+    method = case["method"]
+    fam = M.family(M.get(method))
+    dtp = M.DTYPES[case["dtype"]]
+    attrs = dict(method=method, family=fam, dtype=case["dtype"])
+    labels = ["family:" + fam, "implicit_steps:" + method, "tolerances:" + ("default" if case["rtol"] is None else "given"), "state_scale:{:g}".format(case["yscale"]), "dtype:" + case["dtype"]]
+    c = dict(case, y0=[v * case["yscale"] for v in case["y0"]], atol=case["rtol"])
+    if case["dtype"] == "float32":
+        c["t0"], c["tf"] = float(np.float32(case["t0"])), float(np.float32(case["tf"]))
+        if c["rtol"] is not None:
+            c["rtol"] = c["atol"] = 1e-4
+    a, f, y0 = traj.make_system(c)
+    rec = _NewtonRecorder(a.integrator)
+    dt_req = abs(float(a.dt))
+    err = traj.run_integrate(a, step_limit=400)
+    if isinstance(err, traj.StepCap):
+        return [V("too_many_steps", "{}: more than 400 recorded steps for span / dt = {:.1f} (state scale {:g}, {} tolerances)".format(
+            method, abs(c["tf"] - c["t0"]) / dt_req, case["yscale"], "default" if case["rtol"] is None else "given"), fam, **attrs)], dict(nontrivial=False, labels=labels)
+    if err is not None:
+        cause = err.__cause__
+        if isinstance(cause, (de.exception_types.FailedToMeetTolerances, np.linalg.LinAlgError)):
+            return [], dict(nontrivial=False, labels=labels + ["reported_failure"])
+        return [V("integrate_raised", "{} raised {!r} caused by {!r}".format(method, err, cause), fam + exc_sig(err), **attrs)], dict(nontrivial=False, labels=labels)
+    t = np.asarray(a.t, dtype=np.float64)
+    eps = float(np.finfo(dtp).eps)
+    tmax = max(abs(c["t0"]), abs(c["tf"]), 1.0)
+    tol = 8 * eps * tmax
+    viols = []
+    groups = []
+    for (ts, h, ok) in rec.attempts:
+        if groups and groups[-1][0] == ts:
+            groups[-1][1].append((h, ok))
+        else:
+            groups.append((ts, [(h, ok)]))
+    shortened = 0
+    for k, (ts, atts) in enumerate(groups):
+        remaining = abs(c["tf"] - ts)
+        want = min(dt_req, remaining)
+        h0 = abs(atts[0][0])
+        if abs(h0 - want) > tol + 4 * eps * want:
+            viols.append(V("step_not_requested", "{}: the step starting at t = {!r} was first attempted with |h| = {!r} where {!r} was requested (no stage solve had failed; state scale {:g}, {} tolerances)".format(
+                method, ts, h0, want, case["yscale"], "default" if case["rtol"] is None else "given"), fam, **attrs))
+            break
+        for (h_prev, ok_prev), (h_next, _) in zip(atts, atts[1:]):
+            if ok_prev or not abs(h_next) < abs(h_prev):
+                viols.append(V("retry_without_failure", "{}: at t = {!r} the attempt with |h| = {!r} (stage solve {}) was followed by one with |h| = {!r}".format(
+                    method, ts, abs(h_prev), "converged" if ok_prev else "failed", abs(h_next)), fam, **attrs))
+                break
+        if len(atts) > 1:
+            shortened += 1
+        if viols:
+            break
+    steps = np.abs(np.diff(t))
+    if not viols and len(steps) and np.any(steps > dt_req + tol):
+        viols.append(V("step_longer", "{}: a recorded step of length {!r} exceeds the requested {!r}".format(method, float(np.max(steps)), dt_req), fam, **attrs))
+    return viols, dict(nontrivial=bool(len(groups) >= 3), labels=labels + (["a_stage_solve_failed_and_the_step_was_retried"] if shortened else []), counts=dict(recorded_steps=len(steps)))
+
+
 def check(case):
     if case["part"] == "history":
         return _check_history(case)
+    if case["part"] == "implicit_steps":
+        return _check_implicit_steps(case)
     import desolver as de
     method = case["method"]
     fam = M.family(M.get(method))
